@@ -290,7 +290,7 @@ func run(c *fw.Ctx) {
 			return
 		}
 		cls := classify("marker-ref", []string{line}, []string{res})
-		if cls != "" && classSeen[cls] >= 15 {
+		if cls != "" && classSeen[cls] >= 10 {
 			c.Tally(1)
 			c.Count("known-class-beyond-quota:" + cls)
 			return
